@@ -27,7 +27,9 @@ RULE = ('a case is one operation (props, index, getitem, insert, append, squeeze
         'fromintv, fromgrid, nonuniform) on one generated partition / parameter set, or one partition '
         'observed after a history (2-3 partitions built on one SHARED RectGrid object over different '
         'domains, optionally one more sharing the IntervalProd object, and 7-17 interleaved queries, '
-        'each of which must equal the answer of a freshly built equal partition). Non-trivial = '
+        'each of which must equal the answer of a freshly built equal partition), or one ownership test (every '
+        'constructor/factory consuming user arrays x 3 memory layouts: the caller overwrites his arrays afterwards; '
+        'every array-returning attribute: the caller writes into the returned array; nothing observable may change). Non-trivial = '
         'the real code returned a result (not an exception) on a partition with at least 2 cells '
         'in total. distinct = distinct (operation, stream, ndim, shape class per axis (1, 2, 3+), '
         'uniform/non-uniform, per-side nodes-on-boundary flags, operation-specific class: kind of '
@@ -1304,6 +1306,263 @@ def run_history(rp):
 
 
 # ---------------------------------------------------------------------------
+# ownership strata: partitions, grids and sets are immutable values.
+#  input:    every constructor / factory that consumes user arrays is fed float64 ndarrays (fresh, strided
+#            column views of a point array, read-only views of a writable buffer); all observables are
+#            recorded, the caller's arrays are then overwritten in place, and every observable must be
+#            unchanged and no array of the object may share memory with a caller's array.
+#  returned: every array handed out by the objects is overwritten by the caller (a refusal - read-only
+#            array - is fine); all later answers must be unchanged.
+
+OWN_CTORS = ['RectGrid', 'IntervalProd', 'RectPartition', 'nonuniform_partition',
+             'uniform_partition_fromgrid', 'uniform_partition_fromintv', 'uniform_partition',
+             'insert', 'append', 'getitem_list']
+OWN_LAYOUTS = ['fresh', 'column', 'readonly_view']
+OWN_ATTRS = ['coord_vectors', 'cell_boundary_vecs', 'cell_sizes_vecs', 'cell_sides', 'min_pt', 'max_pt',
+             'mid_pt', 'extent', 'min()', 'max()', 'meshgrid', 'points()',
+             'grid.coord_vectors', 'grid.stride', 'grid.min_pt', 'grid.max_pt', 'grid.extent', 'grid.mid_pt',
+             'grid.min()', 'grid.max()', 'grid.meshgrid', 'grid.points()',
+             'set.min_pt', 'set.max_pt', 'set.extent', 'set.mid_pt', 'set.min()', 'set.max()']
+EXPECTED_BRANCHES = ['ownership/input/' + c for c in OWN_CTORS] + ['ownership/returned/' + a for a in OWN_ATTRS]
+
+
+def own_observe(p):
+    """Everything a caller can see of a partition, exactly."""
+    out = {}
+    for name in ('coord_vectors', 'cell_boundary_vecs', 'cell_sizes_vecs', 'cell_sides', 'min_pt', 'max_pt',
+                 'extent', 'nodes_on_bdry_byaxis', 'is_uniform_byaxis', 'boundary_cell_fractions', 'shape'):
+        out[name] = canon(getattr(p, name))
+    out['grid.stride'] = canon(p.grid.stride)
+    out['grid.min_pt'] = canon(p.grid.min_pt)
+    out['set.max_pt'] = canon(p.set.max_pt)
+    mid = [float(a + b) / 2 for a, b in zip(np.atleast_1d(p.min_pt).tolist(), np.atleast_1d(p.max_pt).tolist())]
+    out['index(mid)'] = canon(p.index(mid if p.ndim > 1 else mid[0]))
+    out['index(mid,floating)'] = canon(p.index(mid if p.ndim > 1 else mid[0], floating=True))
+    out['hash'] = hash(p)
+    return out
+
+
+class UserArrays(object):
+    """The caller's float64 arrays in a given memory layout, with a way to overwrite them in place."""
+
+    def __init__(self, layout, rng):
+        self.layout, self.rng, self.bases, self.views = layout, rng, [], []
+
+    def make(self, values):
+        vals = np.array([float(v) for v in values], dtype='float64')
+        if self.layout == 'column':
+            # strided column view of a (len, 3) point array
+            base = np.full((len(vals), 3), 7.25)
+            k = self.rng.randrange(3)
+            base[:, k] = vals
+            view = base[:, k]
+        elif self.layout == 'readonly_view':
+            base = vals.copy()
+            view = base[:]
+            view.setflags(write=False)
+        else:
+            base = vals.copy()
+            view = base
+        self.bases.append(base)
+        self.views.append(view)
+        return view
+
+    def overwrite(self, how):
+        for b in self.bases:
+            if b.dtype.kind in 'iu':
+                b[...] = 0
+            elif how == 'nan':
+                b[...] = np.nan
+            else:
+                b[...] = b * 3 - 11  # refill the work buffer with other finite data
+
+    def shares(self, arr):
+        return any(np.shares_memory(arr, b) for b in self.bases)
+
+
+def own_arrays_of(p):
+    arrs = list(p.coord_vectors) + list(p.cell_boundary_vecs) + [p.min_pt, p.max_pt, p.grid.min_pt, p.grid.max_pt]
+    return [np.asarray(a) for a in arrs]
+
+
+def own_build(ctor, desc, ua, rng):
+    """Build a partition with constructor `ctor` from the caller's arrays `ua`; returns (partition,
+    list of extra user-owned python lists to mutate, expected description)."""
+    import odl
+    cs, lo, hi = desc['c'], desc['lo'], desc['hi']
+    nd = len(cs)
+    lists = []
+    if ctor == 'RectGrid':
+        grid = odl.RectGrid(*[ua.make(c) for c in cs])
+        return odl.RectPartition(odl.IntervalProd([float(v) for v in lo], [float(v) for v in hi]), grid), lists
+    if ctor == 'IntervalProd':
+        intv = odl.IntervalProd(ua.make(lo), ua.make(hi))
+        return odl.RectPartition(intv, odl.RectGrid(*[[float(v) for v in c] for c in cs])), lists
+    if ctor == 'RectPartition':
+        return odl.RectPartition(odl.IntervalProd(ua.make(lo), ua.make(hi)),
+                                 odl.RectGrid(*[ua.make(c) for c in cs])), lists
+    if ctor == 'nonuniform_partition':
+        return odl.nonuniform_partition(*[ua.make(c) for c in cs], min_pt=ua.make(lo), max_pt=ua.make(hi)), lists
+    if ctor == 'uniform_partition_fromgrid':
+        grid = odl.RectGrid(*[ua.make(c) for c in cs])
+        return odl.uniform_partition_fromgrid(grid, min_pt=ua.make(lo), max_pt=ua.make(hi)), lists
+    if ctor in ('uniform_partition_fromintv', 'uniform_partition'):
+        shape = np.array([len(c) for c in cs], dtype='int64')
+        ua.bases.append(shape)
+        if ctor == 'uniform_partition':
+            return odl.uniform_partition(min_pt=ua.make(lo), max_pt=ua.make(hi), shape=shape), lists
+        return odl.uniform_partition_fromintv(odl.IntervalProd(ua.make(lo), ua.make(hi)), shape), lists
+    if ctor in ('insert', 'append'):
+        base = odl.RectPartition(odl.IntervalProd([float(v) for v in lo[:1]], [float(v) for v in hi[:1]]),
+                                 odl.RectGrid([float(v) for v in cs[0]]))
+        if nd == 1:
+            other = odl.nonuniform_partition(ua.make(cs[0]), min_pt=ua.make(lo[:1]), max_pt=ua.make(hi[:1]))
+        else:
+            other = odl.nonuniform_partition(*[ua.make(c) for c in cs[1:]], min_pt=ua.make(lo[1:]),
+                                             max_pt=ua.make(hi[1:]))
+        return (base.append(other) if ctor == 'append' else base.insert(1, other)), lists
+    if ctor == 'getitem_list':
+        p = odl.RectPartition(odl.IntervalProd(ua.make(lo), ua.make(hi)), odl.RectGrid(*[ua.make(c) for c in cs]))
+        n = len(cs[0])
+        idx = sorted(rng.sample(range(n), min(n, rng.choice([1, 2, 3]))))
+        lists.append(idx)
+        return p[idx], lists
+    raise KeyError(ctor)
+
+
+def case_ownership_input(rng, ctor, layout):
+    desc = gen_desc(rng, True, ndim=rng.choice([1, 2, 2, 3]))
+    if ctor in ('uniform_partition_fromintv', 'uniform_partition'):
+        # limits only; the grid is computed
+        desc = {'c': [[F(0)] * rng.choice([1, 2, 3, 5]) for _ in desc['c']],
+                'lo': [dy(rng) for _ in desc['c']], 'hi': None}
+        desc['hi'] = [a + F(rng.choice([1, 2, 6, 12]), 8) * len(c) for a, c in zip(desc['lo'], desc['c'])]
+    how = rng.choice(['nan', 'refill'])
+    rp = {'op': 'ownership_input', 'ctor': ctor, 'layout': layout, 'how': how, 'part': desc_json(desc),
+          'exact': True, 'seed': rng.getrandbits(32)}
+    return run_ownership_input(rp)
+
+
+def run_ownership_input(rp):
+    import random
+    rng = random.Random(rp['seed'])
+    desc = desc_unjson(rp['part'])
+    ctor, layout = rp['ctor'], rp['layout']
+    ua = UserArrays(layout, rng)
+    what = '{}(float64 arrays, layout {})'.format(ctor, layout)
+    built, err = guarded(lambda: own_build(ctor, desc, ua, rng))
+    if built is None:
+        return Case('ownership', 'props -', None, [('ownership input ' + ctor + ' raises',
+                                                    '{} on {} raised {}'.format(what, show_desc(desc), err))],
+                    None, rp, True, kind='none')
+    p, lists = built
+    problems = []
+    before, err = guarded(lambda: own_observe(p))
+    if before is None:
+        problems.append(('ownership input ' + ctor + ' raises', 'observables of {} raise {}'.format(what, err)))
+    shared = [i for i, a in enumerate(own_arrays_of(p)) if ua.shares(a)]
+    if shared:
+        problems.append(('ownership input {}: result shares memory with the caller\'s arrays'.format(ctor),
+                         '{} built from {}: arrays #{} of the object (coord_vectors, cell_boundary_vecs, min_pt, '
+                         'max_pt, grid.min_pt, grid.max_pt in this order) share memory with the arrays passed in'
+                         .format(what, show_desc(desc), shared)))
+    # the caller reuses / refills his buffers
+    _, werr = guarded(lambda: ua.overwrite(rp['how']))
+    for l in lists:
+        l[:] = [0] * len(l)
+    after, err = guarded(lambda: own_observe(p))
+    if before is not None and after != before:
+        changed = sorted(k for k in before if after is None or after.get(k) != before[k])
+        problems.append(('ownership input {}: object changes when the caller overwrites his arrays'.format(ctor),
+                         '{} built from {}; after the caller overwrote his arrays in place ({}) these observables '
+                         'changed: {}{}'.format(what, show_desc(desc), rp['how'], changed[:6],
+                                                '' if after is not None else ' (now raising ' + str(err) + ')')))
+    if werr is not None:
+        problems.append(('ownership input {}: the caller\'s own array was made read-only'.format(ctor),
+                         '{}: writing to the caller\'s buffer afterwards raised {}'.format(what, werr)))
+    d2, _ = guarded(lambda: desc_of(p))
+    if d2 is None or any(v is None for v in d2['lo']):
+        return Case('ownership', 'props -', None, problems, ('ownership/input', ctor, layout), rp, True, kind='none')
+    props, _ = guarded(lambda: real_props(p))
+    return Case('ownership', 'props ' + wire_part(d2), props, problems +
+                [('after ownership test: ' + k, m) for k, m in (oracle_props(d2, props, True) if props else [])],
+                ('ownership/input', ctor, layout), rp, True, scale_of(d2), kind='props' if props else 'none')
+
+
+def own_get(p, attr):
+    obj = p
+    for part in attr.split('.'):
+        if part.endswith('()'):
+            obj = getattr(obj, part[:-2])()
+        else:
+            obj = getattr(obj, part)
+    return obj
+
+
+def case_ownership_returned(rng, attr):
+    nd = rng.choice([1, 2, 2, 3])
+    desc = gen_desc(rng, True, ndim=nd)
+    if attr == 'cell_sides' or rng.random() < 0.3:
+        # uniform axes (cell_sides is defined), often with a length-1 axis
+        import odl
+        shape = [rng.choice([1, 1, 2, 3, 5]) for _ in range(nd)]
+        lo = [dy(rng) for _ in range(nd)]
+        hi = [a + F(rng.choice([1, 2, 6, 12]), 8) * n for a, n in zip(lo, shape)]
+        desc = desc_of(odl.uniform_partition([float(v) for v in lo], [float(v) for v in hi], shape))
+    rp = {'op': 'ownership_returned', 'attr': attr, 'part': desc_json(desc), 'exact': True}
+    return run_ownership_returned(rp)
+
+
+def run_ownership_returned(rp):
+    desc = desc_unjson(rp['part'])
+    attr = rp['attr']
+    line = 'props ' + wire_part(desc)
+    p, err = guarded(lambda: build(desc))
+    if p is None:
+        return Case('ownership', line, None, [('constructor', 'valid partition rejected: ' + err)], None, rp, True)
+    problems = []
+    before, err = guarded(lambda: own_observe(p))
+
+    def scribble():
+        got = own_get(p, attr)
+        arrs = got if isinstance(got, (tuple, list)) else (got,)
+        refused = 0
+        for a in arrs:
+            a = np.asarray(a) if not isinstance(a, np.ndarray) else a
+            try:
+                a[...] = np.nan
+            except ValueError:
+                refused += 1  # read-only: the state is protected
+        return refused
+    _, serr = guarded(scribble)
+    after, err2 = guarded(lambda: own_observe(p))
+    if serr is not None:
+        problems.append(('ownership returned {} raises'.format(attr), 'partition.{} on {} raised {}'.format(
+            attr, show_desc(desc), serr)))
+    if before is None:
+        problems.append(('ownership returned: observables raise', str(err)))
+    elif after != before:
+        changed = sorted(k for k in before if after is None or after.get(k) != before[k])
+        problems.append(('ownership returned {}: writing into the returned array changes the partition'.format(attr),
+                         'partition {}: after `a = p.{}; a[...] = nan` these observables changed: {}{}'.format(
+                             show_desc(desc), attr, changed[:6],
+                             '' if after is not None else ' (now raising ' + str(err2) + ')')))
+    props, _ = guarded(lambda: real_props(p))
+    return Case('ownership', line, props, problems +
+                [('after ownership test: ' + k, m) for k, m in (oracle_props(desc, props, True) if props else [])],
+                ('ownership/returned', attr), rp, True, scale_of(desc), kind='props' if props else 'none')
+
+
+def ownership_cases(rng, reps):
+    for _ in range(reps):
+        for ctor in OWN_CTORS:
+            for layout in OWN_LAYOUTS:
+                yield case_ownership_input(rng, ctor, layout)
+        for attr in OWN_ATTRS:
+            yield case_ownership_returned(rng, attr)
+
+
+# ---------------------------------------------------------------------------
 # comparison with the model
 
 def compare(ctx, case, ans):
@@ -1385,6 +1644,8 @@ def gen_cases(ctx, budget):
     ops = ['props'] * 4 + ['index'] * 5 + ['getitem'] * 7 + ['insert', 'append', 'squeeze', 'squeeze',
                                                              'byaxis', 'byaxis'] + \
           ['uniform'] * 5 + ['fromintv'] * 3 + ['fromgrid'] * 2 + ['nonuniform'] * 3 + ['history'] * 2
+    for c in ownership_cases(rng, max(1, budget // 2500)):
+        yield c
     for _ in range(budget):
         op = rng.choice(ops)
         exact = rng.random() < 0.75
@@ -1417,7 +1678,9 @@ def gen_cases(ctx, budget):
 def account(ctx, case):
     ctx.case(case.sig, sample={'line': case.line[:200]} if case.sig is not None else None)
     ctx.hit(case.op + ('/exact' if case.exact else '/general') + ('/err' if case.impl is None else '/ok'))
-    if case.sig is not None:
+    if case.op == 'ownership' and case.sig is not None:
+        ctx.hit(case.sig[0] + '/' + case.sig[1])
+    elif case.sig is not None:
         # operation-specific class (index-expression kind, point position, given parameters, ...)
         last = case.sig[-1]
         for t in (set(last) if isinstance(last, tuple) else [last]):
@@ -1448,10 +1711,12 @@ def report(ctx, case, key, msg):
 def run(ctx):
     budget = 12000 if ctx.quick else 150000
     cases = list(gen_cases(ctx, budget))
-    outs = core.run_driver('C14', [c.line for c in cases])
-    for c, ans in zip(cases, outs):
+    with_line = [c for c in cases if c.kind != 'none']
+    outs = dict(zip((id(c) for c in with_line), core.run_driver('C14', [c.line for c in with_line])))
+    for c in cases:
         account(ctx, c)
-        compare(ctx, c, ans)
+        if c.kind != 'none':
+            compare(ctx, c, outs[id(c)])
 
 
 def search(ctx, broken):
@@ -1470,6 +1735,10 @@ def search(ctx, broken):
 def replay(ctx, rp):
     op = rp['op']
     exact = rp.get('exact', True)
+    if op in ('ownership_input', 'ownership_returned'):
+        c = run_ownership_input(rp) if op == 'ownership_input' else run_ownership_returned(rp)
+        probs = [(k, m) for k, m in c.problems if rp.get('key') in (None, k)]
+        return '; '.join('{}: {}'.format(k, m) for k, m in probs) if probs else None
     if op == 'history':
         probs = [(k, m) for c in run_history(rp) for k, m in c.problems if rp.get('key') in (None, k)]
         return '; '.join('{}: {}'.format(k, m) for k, m in probs) if probs else None
